@@ -239,3 +239,37 @@ func VerifWarmup() {
 		}
 	}
 }
+
+// verifPartsClient answers Partitions / WritablePartitions from tables; every other Client method is absent (a call panics,
+// which the harness reports).
+type verifPartsClient struct {
+	Client
+	all, writable map[string][]int32
+}
+
+func (c *verifPartsClient) Partitions(topic string) ([]int32, error) {
+	l, ok := c.all[topic]
+	if !ok {
+		return nil, ErrUnknownTopicOrPartition
+	}
+	return append([]int32(nil), l...), nil
+}
+
+func (c *verifPartsClient) WritablePartitions(topic string) ([]int32, error) {
+	l, ok := c.writable[topic]
+	if !ok {
+		return nil, ErrUnknownTopicOrPartition
+	}
+	return append([]int32(nil), l...), nil
+}
+
+var verifBalanceConf = NewConfig()
+
+// VerifGroupBalance performs the group leader's planning step (consumerGroup.balance: subscriptions -> partitions of the
+// subscribed topics -> strategy.Plan) on a client whose metadata lists the partitions `all`, of which `writable` have a leader.
+func VerifGroupBalance(st BalanceStrategy, members map[string]ConsumerGroupMemberMetadata, all, writable map[string][]int32) (BalanceStrategyPlan, error) {
+	conf := *verifBalanceConf // a copy per call: workers plan concurrently
+	conf.Consumer.Group.Rebalance.Strategy = st
+	c := &consumerGroup{client: &verifPartsClient{all: all, writable: writable}, config: &conf, groupID: "g"}
+	return c.balance(members)
+}
